@@ -41,12 +41,12 @@ CLAIMS = {
         'reachable state under every op list (puts with growth, removals, clear, free, callback iteration with removals, iterator set/remove); '
         'get/contains answer for exactly the live entries; put stores a new key / replaces a value / fails without effect; remove deletes '
         'exactly the named entry (back-shift correctness); rehash keeps exactly the entries; len = number of distinct live keys; callback '
-        'iteration without mutation visits every live entry exactly once. The clause "iteration with removal visits every live entry exactly '
+        'iteration and the iterator object, without mutation, visit every live entry exactly once; clear leaves an empty map. The clause "iteration with removal visits every live entry exactly '
         'once" is REFUTED on the model by a computed witness (C05_iterate_with_removal_refuted) = known finding D12 on the code. Tie: the '
         'extracted model runs against the real map on adversarial key pools chosen with the real hash (same home slot, last slots, '
         'consecutive homes, clusters > size/2, growth) + an independent monitor of the iteration clause.',
-   note=NOTE_COMMON + 'Not proved: clear/free empty the map completely (only invariant preservation is proved for them); iterator-object '
-        '(m_map_itr_*) enumeration order is covered by the differential runs and the iteration monitor only; allocation failure is not modelled '
+   note=NOTE_COMMON + 'Not proved: the destructor log of clear/free (which values, in which order); iteration WITH mutation other than the refuted clause '
+        '(iterator set/remove are covered by invariant preservation only); allocation failure is not modelled '
         '(rehash "revert" = the probe-window failure path). Known finding D12 is listed in known_findings.txt.',
    technique='Coq proof (representation invariant by induction over op lists, refinement to the finite map represented, for every hash function) tied by extracted-model differential testing',
    design='7/C05'),
